@@ -16,7 +16,7 @@
    position, C19_shared_once, C19_frame; the invariant [Inv] and its preservation
    by one replacement (C19_inv_step) and by the run (C19_inv_run). *)
 From Coq Require Import List Ascii String NArith Bool.
-From YP Require Import Outcome PyStr PyVal Doc Eyaml C19Spec C19DocSpec EyamlProofs EyamlSubst EyamlDoc EyamlFinal.
+From YP Require Import Outcome PyStr PyVal Doc Eyaml C19Spec C19DocSpec C19FilesSpec C19InvB EyamlProofs EyamlSubst EyamlDoc EyamlFinal EyamlFiles EyamlCount EyamlInvB.
 Import ListNotations.
 Open Scope string_scope.
 Import Ey.
@@ -371,4 +371,307 @@ Qed.
 
 (* the guard is met by the plaintexts of the example *)
 Example C19_ex_plain_ok : plain_ok "one" = true /\ plain_ok "two" = true /\ plain_ok "three" = true.
+Proof. vm_compute. repeat split. Qed.
+
+(* ======================================================================================== *)
+(* The run over several files (`for yaml_file in args.yaml_files`, Ey.rotate_files / rotate_main). *)
+
+(* A file inside a run is rotated exactly as that file ALONE (fresh seen_anchors, fresh
+   file_changed, fresh log): the only thing that reaches it from the files before is the exit
+   status, and a file without a failure of its own hands it on unchanged. *)
+Theorem C19_file_in_run_is_file_alone :
+  forall (key : Type) (enc dec : key -> string -> option string) (layout : out_fmt -> string -> string)
+         (oldk newk : key) (ex : nat) (d : node) (next : N) (folded : list N),
+    rotate_file_from key enc dec layout oldk newk ex d next folded
+    = match rotate_file key enc dec layout oldk newk d next folded with
+      | Ok st => Ok (with_exit (carry_exit ex (r_exit st)) st)
+      | Raise e => Raise e
+      | OutOfFuel => OutOfFuel
+      end.
+Proof. exact rotate_file_from_alone. Qed.
+Print Assumptions C19_file_in_run_is_file_alone.
+
+(* The whole run ([run_spec], Spec/C19FilesSpec.v), for EVERY list of arguments and every cipher:
+   - the loop gets through a prefix of the arguments; argument j of that prefix is `skipped` when it
+     is not a file / not loadable, and otherwise holds what [rotate_file] returns on that document
+     alone (document written, seen_anchors, file_changed, log), with the exit status
+     [status_from 0 (the first j+1 arguments)];
+   - when main() reaches sys.exit, every argument was got through and the status is the fold
+     [status_from 0 fs]: 2 after a non-file, 3 after an unloadable file or a file with a failed
+     decryption / encryption, else what it was;
+   - when an exception leaves main(), it is the exception the rotation of argument n = (number of
+     arguments got through) raises on its own: the arguments before n are done - a changed file
+     among them was saved (C17: Sv.CRotate) before argument n was looked at -, the ones after n
+     are not touched. *)
+Theorem C19_files_independent :
+  forall (key : Type) (enc dec : key -> string -> option string) (layout : out_fmt -> string -> string)
+         (oldk newk : key) (fs : list file_in),
+    run_spec key enc dec layout oldk newk fs (rotate_main key enc dec layout oldk newk fs).
+Proof. exact rotate_main_spec. Qed.
+Print Assumptions C19_files_independent.
+
+(* exit status 0 at the end: every argument was a loadable file (and, next theorems, rotated without failure) *)
+Theorem C19_run_success_only_documents :
+  forall (key : Type) (enc dec : key -> string -> option string) (layout : out_fmt -> string -> string)
+         (oldk newk : key) (fs : list file_in),
+    ro_end (rotate_main key enc dec layout oldk newk fs) = Ok 0 ->
+    forall f, In f fs -> exists d next folded, f = FiDoc d next folded.
+Proof. exact run_success_docs. Qed.
+Print Assumptions C19_run_success_only_documents.
+
+(* the document-level theorems, for EVERY file of EVERY run *)
+Theorem C19_run_frame :
+  forall (key : Type) (enc dec : key -> string -> option string) (layout : out_fmt -> string -> string)
+         (oldk newk : key),
+    cipher_laws key enc dec layout -> oldk <> newk ->
+    forall (fs : list file_in) (j : nat) (d : node) (next : N) (folded : list N),
+      nth_error fs j = Some (FiDoc d next folded) -> loaded_doc d next ->
+      forall st, nth_error (ro_files (rotate_main key enc dec layout oldk newk fs)) j = Some (FrDone st) ->
+        rotated frame_leaf d (r_doc st) /\ frame_of (r_doc st) = frame_of d.
+Proof. exact run_frame. Qed.
+Print Assumptions C19_run_frame.
+
+Theorem C19_run_inv :
+  forall (key : Type) (enc dec : key -> string -> option string) (layout : out_fmt -> string -> string)
+         (oldk newk : key),
+    cipher_laws key enc dec layout -> oldk <> newk ->
+    forall (fs : list file_in) (j : nat) (d : node) (next : N) (folded : list N),
+      nth_error fs j = Some (FiDoc d next folded) -> loaded_doc d next ->
+      forall st, nth_error (ro_files (rotate_main key enc dec layout oldk newk fs)) j = Some (FrDone st) ->
+        Inv (r_doc st) (r_next st).
+Proof. exact run_inv. Qed.
+Print Assumptions C19_run_inv.
+
+Theorem C19_run_shared_once :
+  forall (key : Type) (enc dec : key -> string -> option string) (layout : out_fmt -> string -> string)
+         (oldk newk : key),
+    cipher_laws key enc dec layout -> oldk <> newk ->
+    forall (fs : list file_in) (j : nat) (d : node) (next : N) (folded : list N),
+      nth_error fs j = Some (FiDoc d next folded) -> loaded_doc d next ->
+      forall st, nth_error (ro_files (rotate_main key enc dec layout oldk newk fs)) j = Some (FrDone st) ->
+        (forall l1 l2 x a, (forall m, ~ In (RMember m) l1) -> (forall m, ~ In (RMember m) l2) ->
+           lookup d l1 = Some x -> lookup d l2 = Some x -> is_eyaml_node x = true -> anchor_name x = Some a ->
+           exists y, lookup (r_doc st) l1 = Some y /\ lookup (r_doc st) l2 = Some y /\
+                     anchor_name y = Some a /\ is_eyaml_node y = true)
+        /\ NoDup (r_seen st).
+Proof. exact run_shared. Qed.
+Print Assumptions C19_run_shared_once.
+
+(* a successful run (sys.exit(0)): EVERY file was got through, and every encrypted value position
+   of every file is re-keyed (guard plain_ok = F19a) *)
+Theorem C19_run_rekeyed_partial :
+  forall (key : Type) (enc dec : key -> string -> option string) (layout : out_fmt -> string -> string)
+         (oldk newk : key),
+    cipher_laws key enc dec layout -> oldk <> newk ->
+    forall (fs : list file_in) (j : nat) (d : node) (next : N) (folded : list N),
+      nth_error fs j = Some (FiDoc d next folded) -> loaded_doc d next ->
+      ro_end (rotate_main key enc dec layout oldk newk fs) = Ok 0 ->
+      exists st, nth_error (ro_files (rotate_main key enc dec layout oldk newk fs)) j = Some (FrDone st) /\ r_exit st = 0 /\
+        forall l i s, In l (positions d) -> lookup d l = Some (NLeaf i (PStr s)) -> is_eyaml_str s = true ->
+          exists i' s' p, lookup (r_doc st) l = Some (NLeaf i' (PStr s')) /\
+            decrypt_eyaml key dec oldk (PStr s) = Ok (PStr p) /\
+            (plain_ok p = true -> decrypt_eyaml key dec newk (PStr s') = Ok (PStr p)).
+Proof. exact run_rekeyed. Qed.
+Print Assumptions C19_run_rekeyed_partial.
+
+Theorem C19_run_old_key_dead_partial :
+  forall (key : Type) (enc dec : key -> string -> option string) (layout : out_fmt -> string -> string)
+         (oldk newk : key),
+    cipher_laws key enc dec layout -> oldk <> newk ->
+    forall (fs : list file_in) (j : nat) (d : node) (next : N) (folded : list N),
+      nth_error fs j = Some (FiDoc d next folded) -> loaded_doc d next ->
+      ro_end (rotate_main key enc dec layout oldk newk fs) = Ok 0 ->
+      exists st, nth_error (ro_files (rotate_main key enc dec layout oldk newk fs)) j = Some (FrDone st) /\ r_exit st = 0 /\
+        forall l i s, In l (positions d) -> lookup d l = Some (NLeaf i (PStr s)) -> is_eyaml_str s = true ->
+          exists i' s' p, lookup (r_doc st) l = Some (NLeaf i' (PStr s')) /\ is_eyaml_str s' = true /\
+            decrypt_eyaml key dec oldk (PStr s) = Ok (PStr p) /\
+            (plain_ok p = true -> decrypt_eyaml key dec oldk (PStr s') = Raise EyamlExc).
+Proof. exact run_old_key_dead. Qed.
+Print Assumptions C19_run_old_key_dead_partial.
+
+(* non-vacuity, and the point of the per-file reset: the SAME anchor name `x` carries a secret in
+   two files of one run, with a non-file and an unloadable file around them - both are rotated,
+   each with its own seen_anchors = ["x"]; the status is 3 (carried from the unloadable file) *)
+Definition toy_file_a : file_in := FiDoc (toy_doc (toy_leaf 2 (Some "x") "ENC[O,one]")) 10 [].
+Definition toy_file_b : file_in :=
+  FiDoc (NSeq (mkinfo 0 None true None) [toy_leaf 1 (Some "x") "ENC[O,one]"; toy_leaf 1 (Some "x") "ENC[O,one]"]) 2 [].
+
+Example C19_ex_two_files_same_anchor :
+  rotate_main string toy_enc toy_dec toy_layout "old" "new" [FiNotFile; toy_file_a; FiUnloadable; toy_file_b]
+  = mkro [FrSkipped;
+          FrDone (mkrs (toy_doc (toy_leaf 10 (Some "x") "ENC[N,one]")) ["x"] true 2 11 [] [(2%N, "one", "ENC[N,one]")]);
+          FrSkipped;
+          FrDone (mkrs (NSeq (mkinfo 0 None true None) [toy_leaf 3 (Some "x") "ENC[N,one]"; toy_leaf 3 (Some "x") "ENC[N,one]"])
+                       ["x"] true 3 4 [] [(1%N, "one", "ENC[N,one]")])]
+         (Ok 3).
+Proof. vm_compute. reflexivity. Qed.
+
+Example C19_ex_two_files_success :
+  ro_end (rotate_main string toy_enc toy_dec toy_layout "old" "new" [toy_file_a; toy_file_b]) = Ok 0.
+Proof. vm_compute. reflexivity. Qed.
+
+(* a run that is left by an exception: the first file is done (and saved), the third never looked at *)
+Example C19_ex_run_stopped :
+  rotate_main string toy_enc toy_dec toy_layout "old" "new"
+    [toy_file_a; FiDoc (toy_doc (toy_leaf 2 None ("ENC[" ++ String (ascii_of_nat 233) "]"))) 10 []; toy_file_b]
+  = mkro [FrDone (mkrs (toy_doc (toy_leaf 10 (Some "x") "ENC[N,one]")) ["x"] true 0 11 [] [(2%N, "one", "ENC[N,one]")])]
+         (Raise (PyCrash ValueError)).
+Proof. vm_compute. reflexivity. Qed.
+
+(* ======================================================================================== *)
+(* "rotated ONCE", counted on the log of encryptions r_log.                                  *)
+
+(* every entry of the log is one call of encrypt_eyaml under the NEW key, and what it returned is
+   what was stored *)
+Theorem C19_log_is_encrypt_calls :
+  forall (key : Type) (enc dec : key -> string -> option string) (layout : out_fmt -> string -> string)
+         (oldk newk : key),
+    cipher_laws key enc dec layout -> oldk <> newk ->
+    forall (d : node) (next : N) (folded : list N) (st : rstate),
+      loaded_doc d next ->
+      rotate_file key enc dec layout oldk newk d next folded = Ok st ->
+      Forall (fun e : N * string * string =>
+                exists fmt, encrypt_eyaml key enc layout newk (snd (fst e)) fmt = Ok (snd e)) (r_log st).
+Proof. exact stmt_log_calls. Qed.
+Print Assumptions C19_log_is_encrypt_calls.
+
+(* seen_anchors at the end of a file (any exit status): the Anchor names of its secrets, each once *)
+Theorem C19_seen_anchors_exact :
+  forall (key : Type) (enc dec : key -> string -> option string) (layout : out_fmt -> string -> string)
+         (oldk newk : key),
+    cipher_laws key enc dec layout -> oldk <> newk ->
+    forall (d : node) (next : N) (folded : list N) (st : rstate),
+      loaded_doc d next ->
+      rotate_file key enc dec layout oldk newk d next folded = Ok st ->
+      NoDup (r_seen st) /\
+      forall a, In a (r_seen st) <-> exists l, In l (secret_positions d) /\ anchor_at d l = Some a.
+Proof. exact stmt_seen_exact. Qed.
+Print Assumptions C19_seen_anchors_exact.
+
+(* full strength, no guard: a successful rotation asked for AT LEAST one encryption per Anchor name
+   that carries a secret and one per unanchored secret position *)
+Theorem C19_encrypt_calls_at_least :
+  forall (key : Type) (enc dec : key -> string -> option string) (layout : out_fmt -> string -> string)
+         (oldk newk : key),
+    cipher_laws key enc dec layout -> oldk <> newk ->
+    forall (d : node) (next : N) (folded : list N) (st : rstate),
+      loaded_doc d next ->
+      rotate_file key enc dec layout oldk newk d next folded = Ok st ->
+      r_exit st = 0 ->
+      expected_encryptions d <= List.length (r_log st).
+Proof. exact stmt_encrypt_calls_expected_at_least. Qed.
+Print Assumptions C19_encrypt_calls_at_least.
+
+(* EXACTLY once per anchored secret (per Anchor name: = length seen_anchors) and once per unanchored
+   secret position - under the F19a guard, on the whole document: every secret's plaintext is
+   plain_ok (no trailing white space, not itself beginning with the marker) *)
+Theorem C19_encrypt_calls_partial :
+  forall (key : Type) (enc dec : key -> string -> option string) (layout : out_fmt -> string -> string)
+         (oldk newk : key),
+    cipher_laws key enc dec layout -> oldk <> newk ->
+    forall (d : node) (next : N) (folded : list N) (st : rstate),
+      loaded_doc d next ->
+      rotate_file key enc dec layout oldk newk d next folded = Ok st ->
+      r_exit st = 0 ->
+      plain_guard key dec oldk d = true ->
+      List.length (r_log st) = expected_encryptions d /\
+      List.length (r_log st) = List.length (r_seen st) + List.length (unanchored_secret_positions d) /\
+      (* ... and every logged call did reach the cipher (no plaintext was passed through as it is) *)
+      Forall (fun e : N * string * string =>
+                plain_ok (snd (fst e)) = true /\ exists c, enc newk (snd (fst e)) = Some c) (r_log st).
+Proof.
+  intros key enc dec layout oldk newk laws kd d next folded st Hd Hr Hex G. split; [|split].
+  - exact (stmt_encrypt_calls_expected key enc dec layout oldk newk laws kd d next folded st Hd Hr Hex G).
+  - exact (stmt_encrypt_calls key enc dec layout oldk newk laws kd d next folded st Hd Hr Hex G).
+  - exact (stmt_log_cipher_calls key enc dec layout oldk newk laws kd d next folded st Hd Hr G).
+Qed.
+Print Assumptions C19_encrypt_calls_partial.
+
+(* without the guard the count is false (F19a: a plaintext that begins with the marker is stored
+   as it is - here a value encrypted four times under the old key, inside a list that is aliased
+   in its parent list: the two positions are visited four times, every visit peels one layer, the
+   run ends with status 0 after FOUR calls of encrypt_eyaml - of which ONE reaches the cipher - for
+   TWO unanchored secret positions; replayed on the real tool: status 0, four `decrypt` and one
+   `encrypt` subprocess) *)
+Definition nest_enc (k p : string) : option string :=
+  if String.eqb k "new" && String.eqb p "x" then Some "ENC[N,x]" else None.
+Definition nest_dec (k c : string) : option string :=
+  if String.eqb k "old" then
+    if String.eqb c "ENC[O,4]" then Some "ENC[O,3]"
+    else if String.eqb c "ENC[O,3]" then Some "ENC[O,2]"
+    else if String.eqb c "ENC[O,2]" then Some "ENC[O,1]"
+    else if String.eqb c "ENC[O,1]" then Some "x" else None
+  else if String.eqb k "new" && String.eqb c "ENC[N,x]" then Some "x" else None.
+Definition nest_inner : node := NSeq (mkinfo 1 (Some "c") true None) [toy_leaf 2 None "ENC[O,4]"].
+Definition nest_doc : node := NSeq (mkinfo 0 None true None) [nest_inner; nest_inner].
+
+Lemma nest_laws : cipher_laws string nest_enc nest_dec toy_layout.
+Proof.
+  assert (T : forall k p c, nest_enc k p = Some c -> k = "new" /\ p = "x" /\ c = "ENC[N,x]").
+  { intros k p c H; unfold nest_enc in H.
+    destruct (String.eqb k "new") eqn:K; [|discriminate H]. destruct (String.eqb p "x") eqn:P; [|discriminate H].
+    apply String.eqb_eq in K, P. inversion H. repeat split; assumption. }
+  repeat split.
+  - intros k p c H. destruct (T k p c H) as (-> & -> & ->); reflexivity.
+  - intros k k' p c Hk H. destruct (T k p c H) as (-> & -> & ->). unfold nest_dec.
+    destruct (String.eqb k' "new") eqn:K'; [apply String.eqb_eq in K'; subst k'; exfalso; apply Hk; reflexivity|].
+    destruct (String.eqb k' "old"); reflexivity.
+  - intros k p c H. destruct (T k p c H) as (_ & _ & ->); vm_compute; reflexivity.
+  - intros k p c fmt H. destruct (T k p c H) as (_ & _ & ->); destruct fmt; eexists; vm_compute; split; reflexivity.
+Qed.
+
+Lemma nest_loaded : loaded_doc nest_doc 3.
+Proof.
+  split; [|split; [|reflexivity]].
+  - constructor.
+    + intros a b Ha Hb E. in_cases Ha; in_cases Hb; subst a b; try reflexivity; vm_compute in E; discriminate E.
+    + intros a Ha. in_cases Ha; subst a; vm_compute; reflexivity.
+    + intros a b x Ha Hb Ea Eb. in_cases Ha; in_cases Hb; subst a b; try reflexivity; vm_compute in Ea, Eb; try discriminate Ea; try discriminate Eb.
+    + intros a Ha. in_cases Ha; subst a; vm_compute; discriminate.
+  - intros i kvs H. in_cases H; discriminate H.
+Qed.
+
+Theorem C19_encrypt_calls_refuted :
+  exists (enc dec : string -> string -> option string) (d : node) (next : N) (st : rstate),
+    cipher_laws string enc dec toy_layout /\ loaded_doc d next /\
+    rotate_file string enc dec toy_layout "old" "new" d next [] = Ok st /\ r_exit st = 0 /\
+    List.length (r_log st) = 4 /\ expected_encryptions d = 2 /\
+    List.length (filter (fun e : N * string * string => negb (is_eyaml_str (snd (fst e)))) (r_log st)) = 1.
+Proof.
+  exists nest_enc, nest_dec, nest_doc, 3%N.
+  eexists. split; [exact nest_laws|]. split; [exact nest_loaded|].
+  split; [vm_compute; reflexivity|]. vm_compute. repeat split.
+Qed.
+Print Assumptions C19_encrypt_calls_refuted.
+
+(* non-vacuity: the document of C19_ex_run meets the guard; three encryptions = one Anchor name
+   (three alias positions) + two unanchored secret positions *)
+Example C19_ex_encrypt_calls :
+  plain_guard string toy3_dec "old" toy3_before = true /\ expected_encryptions toy3_before = 3 /\
+  secret_anchor_names toy3_before = ["x"] /\
+  unanchored_secret_positions toy3_before = [[RKey (PStr "s1")]; [RKey (PStr "s2")]].
+Proof. vm_compute. repeat split. Qed.
+
+Example C19_ex_encrypt_calls_applied :
+  List.length [(4%N, "one", "ENC[N,one]"); (6%N, "two", "ENC[N,two]"); (8%N, "three", "ENC[N,three]")] = expected_encryptions toy3_before.
+Proof.
+  exact (proj1 (C19_encrypt_calls_partial string toy3_enc toy3_dec toy_layout "old" "new" C19_ex_toy_laws toy3_keys_differ
+                  toy3_before 20 [] _ C19_ex_loaded C19_ex_run eq_refl (proj1 C19_ex_encrypt_calls))).
+Qed.
+
+(* ======================================================================================== *)
+(* The hypothesis [loaded_doc] is decidable: the boolean [c19_loaded_doc_b] (Spec/C19InvB.v) is
+   extracted, and harness/c19.py evaluates it on EVERY document of EVERY case it encodes (request
+   `loaded-doc-b`; a `false` is a disagreement), so the hypothesis of the document-level theorems
+   is tested on the inputs of the tie, not assumed of docenc.py. *)
+Theorem C19_loaded_doc_b_sound :
+  forall (d : node) (next : N), c19_loaded_doc_b d next = true -> loaded_doc d next.
+Proof. exact c19_loaded_doc_b_sound. Qed.
+Print Assumptions C19_loaded_doc_b_sound.
+
+Example C19_ex_loaded_b :
+  c19_loaded_doc_b toy3_before 20 = true /\ c19_loaded_doc_b nest_doc 3 = true
+  /\ c19_loaded_doc_b toy3_before 8 = false                                     (* 8 is not fresh *)
+  /\ c19_loaded_doc_b (toy_doc (toy_leaf 1 None "clash with the key's identity")) 10 = true  (* keys are not value positions *)
+  /\ c19_loaded_doc_b (NSeq (mkinfo 0 None true None) [toy_leaf 1 (Some "x") "a"; toy_leaf 2 (Some "x") "b"]) 3 = false. (* one anchor, two objects *)
 Proof. vm_compute. repeat split. Qed.
